@@ -1,5 +1,6 @@
 import FeatModel.Model.Proto
 import FeatModel.Model.Adjacency
+import FeatModel.Model.AdjKernels
 /-! line-protocol driver for the C19 models (graph renders, permutations, colouring, Cuthill–McKee) -/
 open FeatModel FeatModel.Proto FeatModel.Adj
 
@@ -11,8 +12,47 @@ def graphP : P Graph := do
   let adj ← many nDom natList
   pure { nImg := nImg, adj := adj }
 
-def showGraph (g : Graph) : String :=
-  s!"G {g.nImg} {showNatsL g.domainPtr} {showNatsL g.imageIdx}"
+/-- a graph as the harness shows it: the two vectors and the scalar observers
+(`get_num_nodes_domain`, `get_num_indices`, `degree()`, `degree(i)` for every domain node) -/
+def showArrays (a : Arrays) : String :=
+  let n := a.ptr.size - 1
+  s!"G {a.nImg} {showNatsL a.ptr.toList} {showNatsL a.idx.toList} Q {n} {a.idx.size} {Kern.degreeAll a} {showNatsL ((List.range n).map (Kern.degreeAt a))}"
+
+def showGraph (g : Graph) : String := showArrays (Arrays.ofGraph g)
+
+/-- the lazy `CompositeAdjactor<Graph,Graph>` as an adjactor: images through the iterator model.
+The driver runs the iterator with the repaired `image_begin` (FINDINGS_C19.md F-C19-5); by
+`C19.compositeIterator_fixed_spec` it coincides with the iterator as it is in the tree on every input on which
+the latter is defined (first adjactor-1 image has a non-empty adjactor-2 list). -/
+def lazyComposite (a b : Graph) : Adjactor :=
+  { nDom := a.nDom, nImg := b.nImg,
+    fold := fun i f s => ((CompIt.imagesOfFixed a b i).getD []).foldl f s }
+
+def showBool (b : Bool) : String := if b then "1" else "0"
+
+/-- the `dyn` script interpreter (one token group per operation) -/
+def dynLoop : Nat → DynGraph → List String → P (List String)
+  | 0, _, out => pure out
+  | fuel + 1, g, out => do
+    let ts ← get
+    if ts.isEmpty then pure out
+    else
+      let k ← tok
+      match k with
+      | "i" => let d ← nat; let im ← nat; let r := g.insert d im; dynLoop fuel r.1 (out ++ [showBool r.2])
+      | "e" => let d ← nat; let im ← nat; let r := g.erase d im; dynLoop fuel r.1 (out ++ [showBool r.2])
+      | "x" => let d ← nat; let im ← nat; dynLoop fuel g (out ++ [showBool (g.exists d im)])
+      | "c" => dynLoop fuel g.clear (out ++ ["c"])
+      | "l" => dynLoop fuel g (out ++ ["l"])
+      | "g" =>
+        let degs := (List.range g.nDom).map g.degreeAt
+        dynLoop fuel g (out ++ [s!"{g.degreeAll} {g.numIndices} {showNatsL degs}"])
+      | "r" =>
+        let rt ← nat
+        match Kern.render rt (Adjactor.ofGraph g.toGraph) with
+        | some a => dynLoop fuel g (out ++ [showArrays a])
+        | none => pure (out ++ ["ABORT"])
+      | _ => throw s!"unknown dyn op {k}"
 
 def showPerm (p : Perm.Permutation) : String := s!"P {showNatsL p.perm} {showNatsL p.swap}"
 
@@ -26,17 +66,21 @@ def handle : P String := do
   match op with
   | "render" =>
     let rt ← nat; let g ← graphP
-    match g.render rt with
-    | some r => pure (showGraph r)
+    -- array-level kernel (proved equal to `g.render rt`, C19.kernel_render_eq)
+    match Kern.render rt (Adjactor.ofGraph g) with
+    | some r => pure (showArrays r)
     | none => pure "ABORT"
   | "render2" =>
     let rt ← nat; let a ← graphP; let b ← graphP
-    match Graph.renderComposite rt a b with
-    | some r => pure (showGraph r)
+    -- array-level two-adjactor kernel (proved equal to `renderComposite`, C19.kernel_render2_eq)
+    match Kern.render2 rt a b with
+    | some r => pure (showArrays r)
     | none => pure "ABORT"
   | "sort" =>
     let g ← graphP
-    pure (showGraph g.sortIndices)
+    match Kern.sortSegments (Arrays.ofGraph g) with
+    | some r => pure (showArrays r)
+    | none => pure "ABORT"
   | "gperm" =>
     let g ← graphP; let dp ← natList; let ip ← natList
     pure (showGraph (g.permuted dp ip))
@@ -84,6 +128,94 @@ def handle : P String := do
       match Perm.swapFromPerm perm with
       | none => pure "HANG"
       | some s => pure s!"CM {showNatsL perm} {showNatsL s} {showNatsL layers}"
+  | "degree" =>
+    let g ← graphP
+    let a := Arrays.ofGraph g
+    pure s!"D {Kern.degreeAll a} {showNatsL ((List.range g.nDom).map (Kern.degreeAt a))}"
+  | "ctor" =>
+    let kind ← nat; let g ← graphP
+    let a := Arrays.ofGraph g
+    match kind with
+    | 0 | 1 | 4 => pure (showArrays a)
+    | 2 => pure (showArrays (Kern.clone a))
+    | 3 => let e := Kern.clone { nImg := 0, ptr := #[], idx := #[] }
+           pure s!"G {e.nImg} {e.ptr.size - 1} {e.idx.size}"
+    | _ => throw "unknown ctor kind"
+  | "gpermidx" =>
+    let g ← graphP; let ip ← natList
+    let a := Arrays.ofGraph g
+    match Perm.construct 2 ip with
+    | none => pure "HANG"
+    | some p =>
+      match Kern.permuteIndices a p.perm with
+      | some r => pure (showArrays r)
+      | none => pure (if a.idx.isEmpty || a.idx.size != p.perm.length then "ABORT" else "EXC")
+  | "randperm" =>
+    -- `Permutation(n, Random&)`: swap array drawn by the library RNG (repeated on the case line), then
+    -- `calc_perm_from_swap`
+    let n ← nat; let _seed ← nat; let sw ← natList
+    if n = 0 then pure "ABORT"
+    else match Perm.construct 3 sw with
+      | some p => pure (showPerm p)
+      | none => pure "HANG"
+  | "permx" =>
+    let v ← natList
+    let r := do
+      let p ← Perm.construct 2 v
+      let i1 ← Perm.construct 4 p.perm
+      let i2 ← Perm.construct 4 i1.perm
+      let sq ← Perm.concat p.perm p.perm
+      let pi ← Perm.concat p.perm i1.perm
+      pure s!"X {showPerm i2} {showPerm p} {showPerm sq} {showPerm pi}"
+    pure (r.getD "HANG")
+  | "permself" =>
+    let v ← natList
+    let q := Perm.concatAliased v
+    match Perm.swapFromPerm q with
+    | some sw => pure (showPerm ⟨q, sw⟩)
+    | none => pure "HANG"
+  | "colorctor" =>
+    let kind ← nat; let nc ← nat; let col ← natList
+    let k := if kind == 1 then nc else Coloring.numDistinct col
+    pure s!"K {k} {Coloring.maxColor k} {showNatsL col}"
+  | "adjcomp" =>
+    let a ← graphP; let b ← graphP
+    if a.nImg > b.nDom then pure "ABORT"
+    else
+      let rows := (List.range a.nDom).map fun i => CompIt.imagesOfFixed a b i
+      if rows.any (·.isNone) then pure "UB"
+      else pure (" ".intercalate (s!"J {a.nDom} {b.nImg}" :: rows.map fun r => showNatsL (r.getD [])))
+  | "adjrender" =>
+    let rt ← nat; let a ← graphP; let b ← graphP
+    if a.nImg > b.nDom then pure "ABORT"
+    else if (List.range a.nDom).any (fun i => (CompIt.imagesOfFixed a b i).isNone) then pure "UB"
+    else match Kern.render rt (lazyComposite a b) with
+      | some r => pure (showArrays r)
+      | none => pure "ABORT"
+  | "dyn" =>
+    let nImg ← nat; let nDom ← nat
+    let ts ← get
+    let out ← dynLoop (ts.length + 1) (DynGraph.empty nDom nImg) []
+    pure (" ".intercalate ("Y" :: out))
+  | "dynrender" =>
+    let kind ← nat; let rt ← nat; let a ← graphP
+    let tr := rt ≥ 4
+    let fin (d : DynGraph) : String :=
+      match Kern.render 0 (Adjactor.ofGraph d.toGraph) with
+      | some r => showArrays r
+      | none => "ABORT"
+    match kind with
+    | 1 => pure (fin (DynGraph.ofAdjactor (Adjactor.ofGraph a) tr))
+    | 2 =>
+      let b ← graphP
+      if a.nImg != b.nDom then pure "ABORT"
+      else pure (fin (DynGraph.ofAdjactor (Adjactor.composite a b) tr))
+    | 3 =>
+      let b ← graphP
+      match (DynGraph.ofAdjactor (Adjactor.ofGraph a) tr).compose b with
+      | some d => pure (fin d)
+      | none => pure "ABORT"
+    | _ => throw "unknown dynrender kind"
   | _ => throw s!"unknown op {op}"
 
 def step (ts : Toks) : String :=
